@@ -3,6 +3,7 @@ package main
 import (
 	"fmt"
 	"math/rand"
+	"os"
 
 	"github.com/projectcalico/calico/felix/config"
 	"github.com/projectcalico/calico/felix/generictables"
@@ -211,7 +212,7 @@ func (e *epSpec) layouts() []struct {
 // returns table name -> {"prog": IR, "base": hook -> base chain name}.
 func (w *world) render(nft bool) (M, []M, error) {
 	cfg := w.cfg
-	cfg.NFTablesFlowTableOffload = nft && w.rnd.Intn(2) == 0
+	cfg.NFTablesFlowTableOffload = nft && (w.rnd.Intn(2) == 0 || os.Getenv("VERIF_NF_OFFLOAD") == "1")
 	rr := rules.NewRenderer(cfg, nft)
 	jump := func(t string) []generictables.Rule {
 		var a generictables.Action
@@ -404,7 +405,11 @@ func runC40(env tracelog.Env, log *tracelog.Log) error {
 			ipv = 6
 		}
 		w := newWorld(rnd, ipv)
-		for _, nft := range []bool{false, true} {
+		flavours := []bool{false, true}
+		if os.Getenv("VERIF_NF_OFFLOAD") == "1" {
+			flavours = []bool{true} // C41 rule half: only nftables renders the offload rule
+		}
+		for _, nft := range flavours {
 			tables, wlInfo, err := w.render(nft)
 			if err != nil {
 				return fmt.Errorf("world %d: %v", i, err)
@@ -428,7 +433,8 @@ func runC40(env tracelog.Env, log *tracelog.Log) error {
 				}
 			}
 			offload := false
-			if f, ok := tables["filter"].(M); ok {
+			for _, tn := range []string{"raw", "mangle", "filter"} {
+				f := tables[tn].(M)
 				for _, rs := range f["prog"].(*nfparse.Program).Chains {
 					for _, r := range rs {
 						if r.A["k"] == "offload" {
